@@ -11,7 +11,7 @@ struct BbHarness : Harness {
         return {"rewind_partial", "rewind_fully_consumed", "add_exactly_fills", "add_refused", "consume_refused", "consume_at_most_clipped",
                 "invalid_setup_null_memory", "invalid_setup_zero_size", "invalid_setup_used_gt_size", "invalid_setup_offset_gt_used"};
     }
-    uint64_t runs(const std::string &, const Tier &t) const override { return t.thorough() ? 20000000 : 1500000; }
+    uint64_t runs(const std::string &, const Tier &t) const override { return t.thorough() ? 6000000 : 1500000; }
 
     Json describe(const std::string &) const override {
         Json d = Json::obj();
